@@ -1,8 +1,12 @@
-//! C24 replay: "every request id receives exactly one response", observed on the server's stdout.
+//! C24 replay: "every request id receives exactly one response", observed on the REAL server's stdout.
 //!   replay dispatch     a registered method with malformed / missing params, an unknown method, a well-formed request
-//!   replay initialize   an `initialize` whose capabilities do not deserialize
-//!   replay all          both
-//! exit 1 = a request id that never got a response was observed (the line starts with FOUND), 0 = every id answered exactly once.
+//!   replay initialize   an `initialize` whose capabilities do not deserialize, then a well-formed one
+//!   replay session      one long session on a generated workspace: requests sent while the server is still initializing + a
+//!                       `$/cancelRequest` for one of them; a request that is IN FLIGHT (it waits for the analysis lock held by a big
+//!                       didOpen) + `$/cancelRequest` while it runs; malformed notifications of every registered method, each
+//!                       followed by a well-formed request; responses counted per id over the whole session
+//!   replay all          all three
+//! exit 1 = some request id got 0 or >1 responses (the line starts with FOUND), 0 = every id was answered exactly once.
 use serde_json::{Value, json};
 use std::collections::BTreeMap;
 use std::io::{BufRead, BufReader, Read, Write};
@@ -14,14 +18,19 @@ fn server_main() {
     use emmylua_ls::cmd_args::*;
     let args = CmdArgs {
         communication: Communication::Stdio, ip: "127.0.0.1".to_string(), port: 5007, log_level: LogLevel::Error,
-        log_path: NoneableString(None), resources_path: NoneableString(None), load_stdlib: CmdBool(false), editor: None,
+        log_path: NoneableString(Some(std::env::var("VR_C24_LOGDIR").unwrap_or(std::env::temp_dir().join("vr_c24_logs").to_string_lossy().to_string()))),
+        resources_path: NoneableString(None), load_stdlib: CmdBool(false), editor: None,
     };
     let rt = tokio::runtime::Builder::new_multi_thread().enable_all().build().unwrap();
     let r = rt.block_on(emmylua_ls::run_ls(args));
+    if let Err(e) = &r { eprintln!("run_ls returned Err: {e}"); }
     std::process::exit(if r.is_ok() { 0 } else { 3 });
 }
 
-struct Server { child: Child, stdin: ChildStdin, rx: Receiver<Value>, responses: BTreeMap<String, Vec<Value>> }
+struct Server { child: Child, stdin: ChildStdin, rx: Receiver<Value>, responses: BTreeMap<String, Vec<Value>>, verbose: bool }
+
+fn frame(v: &Value) -> Vec<u8> { let body = v.to_string(); format!("Content-Length: {}\r\n\r\n{}", body.len(), body).into_bytes() }
+fn short(v: &Value) -> String { let s = v.to_string(); if s.len() > 200 { format!("{}…({} bytes)", s.chars().take(200).collect::<String>(), s.len()) } else { s } }
 
 impl Server {
     fn start() -> Server {
@@ -30,7 +39,7 @@ impl Server {
         let stdin = child.stdin.take().unwrap();
         let mut out = BufReader::new(child.stdout.take().unwrap());
         let err = BufReader::new(child.stderr.take().unwrap());
-        std::thread::spawn(move || { for l in err.lines().map_while(Result::ok) { if l.contains("panicked") { println!("  server stderr: {l}"); } } });
+        std::thread::spawn(move || { for l in err.lines().map_while(Result::ok) { if l.contains("panicked") || l.contains("returned Err") { println!("  server stderr: {l}"); } } });
         let (tx, rx) = channel();
         std::thread::spawn(move || loop {
             let mut len = None;
@@ -45,53 +54,80 @@ impl Server {
             if out.read_exact(&mut buf).is_err() { return; }
             if let Ok(v) = serde_json::from_slice::<Value>(&buf) { if tx.send(v).is_err() { return; } }
         });
-        Server { child, stdin, rx, responses: BTreeMap::new() }
+        Server { child, stdin, rx, responses: BTreeMap::new(), verbose: true }
     }
-    fn send(&mut self, v: Value) -> bool {
-        let body = v.to_string();
-        println!("  --> {body}");
-        write!(self.stdin, "Content-Length: {}\r\n\r\n{}", body.len(), body).and_then(|_| self.stdin.flush()).is_ok()
+    fn send(&mut self, v: Value) -> bool { self.send_all(&[v]) }
+    /// several messages in ONE write: they reach the server back to back
+    fn send_all(&mut self, vs: &[Value]) -> bool {
+        let mut bytes = Vec::new();
+        for v in vs { if self.verbose { println!("  --> {}", short(v)); } bytes.extend(frame(v)); }
+        self.stdin.write_all(&bytes).and_then(|_| self.stdin.flush()).is_ok()
     }
-    /// read server messages until `quiet` passes without one (or `until` is answered); requests FROM the server are answered with null
-    fn pump(&mut self, quiet: Duration, until: Option<&str>) {
-        let mut last = Instant::now();
-        loop {
-            match self.rx.recv_timeout(Duration::from_millis(50)) {
-                Ok(m) => {
-                    last = Instant::now();
-                    if m.get("method").is_some() {
-                        if let Some(id) = m.get("id") { let id = id.clone(); self.send_quiet(json!({"jsonrpc": "2.0", "id": id, "result": null})); }
-                    } else if let Some(id) = m.get("id") {
-                        println!("  <-- {m}");
-                        let key = id.to_string();
-                        self.responses.entry(key.clone()).or_default().push(m);
-                        if until == Some(key.as_str()) { return; }
-                    }
-                }
-                Err(_) => { if last.elapsed() > quiet { return; } }
-            }
+    fn take(&mut self, m: Value) -> Option<String> {
+        if m.get("method").is_some() {
+            // a request FROM the server (configuration, registerCapability, progress): answered with null
+            if let Some(id) = m.get("id") { let r = json!({"jsonrpc": "2.0", "id": id.clone(), "result": null}); let _ = self.stdin.write_all(&frame(&r)).and_then(|_| self.stdin.flush()); }
+            None
+        } else if let Some(id) = m.get("id") {
+            if self.verbose { println!("  <-- {}", short(&m)); }
+            let key = id.to_string();
+            self.responses.entry(key.clone()).or_default().push(m);
+            Some(key)
+        } else { None }
+    }
+    /// read until every id of `ids` has a response (or `timeout`), then `settle` more (a duplicate would follow its twin at once)
+    fn wait_for(&mut self, ids: &[i64], timeout: Duration, settle: Duration) {
+        let end = Instant::now() + timeout;
+        while Instant::now() < end && !ids.iter().all(|i| self.count(*i) > 0) {
+            if let Ok(m) = self.rx.recv_timeout(Duration::from_millis(20)) { self.take(m); }
+            if !ids.is_empty() && self.exited().is_some() && self.rx.try_recv().map(|m| { self.take(m); }).is_err() { break; }
         }
-    }
-    fn send_quiet(&mut self, v: Value) {
-        let body = v.to_string();
-        let _ = write!(self.stdin, "Content-Length: {}\r\n\r\n{}", body.len(), body).and_then(|_| self.stdin.flush());
+        let end = Instant::now() + settle;
+        while Instant::now() < end { if let Ok(m) = self.rx.recv_timeout(Duration::from_millis(20)) { self.take(m); } }
     }
     fn count(&self, id: i64) -> usize { self.responses.get(&id.to_string()).map(|v| v.len()).unwrap_or(0) }
     fn error_code(&self, id: i64) -> Option<i64> { self.responses.get(&id.to_string())?.first()?.get("error")?.get("code")?.as_i64() }
+    fn codes(&self, id: i64) -> String {
+        self.responses.get(&id.to_string()).map(|v| v.iter().map(|m| m.get("error").and_then(|e| e.get("code")).map(|c| format!("error {c}")).unwrap_or("result".to_string())).collect::<Vec<_>>().join(" + ")).unwrap_or_default()
+    }
     fn exited(&mut self) -> Option<String> { self.child.try_wait().ok().flatten().map(|s| format!("{s}")) }
+    fn state(&mut self) -> String { self.exited().map(|s| format!("server process ended ({s})")).unwrap_or("server process still running".to_string()) }
+    fn stop(&mut self) {
+        if self.exited().is_none() {
+            self.send(req(9999, "shutdown", None));
+            self.wait_for(&[9999], Duration::from_secs(3), Duration::from_millis(0));
+            self.send(json!({"jsonrpc": "2.0", "method": "exit"}));
+            std::thread::sleep(Duration::from_millis(300));
+        }
+        let _ = self.child.kill();
+        let _ = self.child.wait();
+    }
 }
 
 fn req(id: i64, method: &str, params: Option<Value>) -> Value {
     match params { Some(p) => json!({"jsonrpc": "2.0", "id": id, "method": method, "params": p}), None => json!({"jsonrpc": "2.0", "id": id, "method": method}) }
+}
+fn notif(method: &str, params: Option<Value>) -> Value {
+    match params { Some(p) => json!({"jsonrpc": "2.0", "method": method, "params": p}), None => json!({"jsonrpc": "2.0", "method": method}) }
+}
+
+/// every id of `sent` must have exactly one response
+fn verdict(s: &mut Server, sent: &[(i64, String)]) -> usize {
+    let mut found = 0;
+    for (id, what) in sent {
+        let n = s.count(*id);
+        if n == 1 { println!("ok    id={id} {what}: 1 response ({})", s.codes(*id)); }
+        else { println!("FOUND id={id} {what}: {n} responses{}; {}", if n > 1 { format!(" ({})", s.codes(*id)) } else { String::new() }, s.state()); found += 1; }
+    }
+    found
 }
 
 fn dispatch() -> usize {
     println!("== dispatch: malformed / missing params, unknown method, well-formed request ==");
     let mut s = Server::start();
     s.send(req(1, "initialize", Some(json!({"processId": null, "rootUri": null, "capabilities": {}}))));
-    s.pump(Duration::from_secs(20), Some("1"));
-    s.send(json!({"jsonrpc": "2.0", "method": "initialized", "params": {}}));
-    s.pump(Duration::from_secs(2), None);
+    s.wait_for(&[1], Duration::from_secs(20), Duration::from_millis(0));
+    s.send(notif("initialized", Some(json!({}))));
     let hover_ok = json!({"textDocument": {"uri": "file:///nowhere/a.lua"}, "position": {"line": 0, "character": 0}});
     let sent: Vec<(i64, &str, Option<Value>, &str)> = vec![
         (7, "textDocument/hover", Some(json!({"bogus": true})), "registered method, MALFORMED params"),
@@ -102,54 +138,145 @@ fn dispatch() -> usize {
         (12, "textDocument/hover", Some(hover_ok), "registered method, well-formed params (sent last)"),
     ];
     for (id, m, p, _) in &sent { s.send(req(*id, m, p.clone())); }
-    s.pump(Duration::from_secs(5), Some("12"));
-    s.pump(Duration::from_secs(3), None);
-    let mut found = 0;
-    for (id, m, p, what) in &sent {
-        let n = s.count(*id);
-        let ps = p.as_ref().map(|p| p.to_string()).unwrap_or("<absent>".to_string());
-        if n == 1 { println!("ok    id={id} {m} ({what}): 1 response{}", s.error_code(*id).map(|c| format!(", error code {c}")).unwrap_or_default()); }
-        else { println!("FOUND id={id} method={m} params={ps} ({what}): {n} responses — the later request id=12 was answered, the server is alive"); found += 1; }
-    }
+    s.wait_for(&[7, 8, 9, 10, 11, 12], Duration::from_secs(6), Duration::from_millis(700));
+    let list: Vec<(i64, String)> = sent.iter().map(|(id, m, p, what)| (*id, format!("{m} params={} ({what})", p.as_ref().map(short).unwrap_or("<absent>".to_string())))).collect();
+    let mut found = verdict(&mut s, &list);
     if s.error_code(9) != Some(-32601) { println!("FOUND id=9 unknown method: not answered with MethodNotFound (-32601)"); found += 1; }
-    s.send(req(99, "shutdown", None));
-    s.pump(Duration::from_secs(3), Some("99"));
-    s.send(json!({"jsonrpc": "2.0", "method": "exit"}));
-    std::thread::sleep(Duration::from_millis(500));
-    let _ = s.child.kill();
+    s.stop();
     found
 }
 
 fn initialize() -> usize {
-    println!("== initialize whose capabilities do not deserialize ==");
+    println!("== initialize whose capabilities do not deserialize, then a well-formed one ==");
     let mut s = Server::start();
     s.send(req(1, "initialize", Some(json!({"processId": null, "rootUri": null, "capabilities": 5}))));
-    s.pump(Duration::from_secs(5), Some("1"));
-    let mut found = 0;
-    let n = s.count(1);
-    std::thread::sleep(Duration::from_millis(300));
-    let ex = s.exited();
-    if n != 1 {
-        println!("FOUND id=1 method=initialize params={{\"capabilities\":5}}: {n} responses; server process: {}", ex.clone().unwrap_or("still running".to_string()));
-        found += 1;
-    } else { println!("ok    id=1 initialize (capabilities do not deserialize): 1 response{}", s.error_code(1).map(|c| format!(", error code {c}")).unwrap_or_default()); }
-    // "the server keeps serving": a well-formed initialize afterwards must still be answered
-    if ex.is_none() {
+    s.wait_for(&[1], Duration::from_secs(5), Duration::from_millis(300));
+    if s.exited().is_none() {
+        // "the server keeps serving": a well-formed initialize afterwards must still be answered
         s.send(req(2, "initialize", Some(json!({"processId": null, "rootUri": null, "capabilities": {}}))));
-        s.pump(Duration::from_secs(10), Some("2"));
+        s.wait_for(&[2], Duration::from_secs(10), Duration::from_millis(300));
     }
-    if s.count(2) != 1 { println!("FOUND id=2 method=initialize (well-formed, sent after the malformed one): {} responses; server process: {}", s.count(2), s.exited().unwrap_or("still running".to_string())); found += 1; }
-    else { println!("ok    id=2 initialize (well-formed, after the malformed one): 1 response"); }
+    let found = verdict(&mut s, &[(1, "initialize params={\"capabilities\":5}".to_string()), (2, "initialize (well-formed, sent after the malformed one)".to_string())]);
     let _ = s.child.kill();
+    found
+}
+
+fn lua_module(i: usize, funcs: usize) -> String {
+    let mut t = format!("---@class Mod{i}\nlocal M = {{}}\n");
+    for f in 0..funcs {
+        t.push_str(&format!("---@param a number\n---@param b string\n---@return number\nfunction M.f{f}(a, b)\n    local t = {{ x = a, y = b, z = {{ a, b, {f} }} }}\n    if a > {f} then return t.x + #b end\n    for k = 1, a do t.x = t.x + k * {f} end\n    return t.x\nend\n"));
+    }
+    t.push_str("return M\n");
+    t
+}
+
+fn session() -> usize {
+    println!("== session: requests during initialization + cancel, cancel of an in-flight request, malformed notifications ==");
+    let ws = std::env::temp_dir().join(format!("vr_c24_ws_{}", std::process::id()));
+    let _ = std::fs::remove_dir_all(&ws);
+    std::fs::create_dir_all(&ws).unwrap();
+    let files: usize = std::env::var("VR_C24_FILES").ok().and_then(|v| v.parse().ok()).unwrap_or(30);
+    for i in 0..files { std::fs::write(ws.join(format!("m{i}.lua")), lua_module(i, 40)).unwrap(); }
+    std::fs::write(ws.join("a.lua"), "local M = {}\nfunction M.foo(x) return x end\nreturn M\n").unwrap();
+    let root = format!("file://{}", ws.to_string_lossy());
+    let uri = |n: &str| format!("{root}/{n}");
+    let hover = |n: &str| json!({"textDocument": {"uri": uri(n)}, "position": {"line": 1, "character": 12}});
+    let mut s = Server::start();
+    let mut sent: Vec<(i64, String)> = Vec::new();
+    let mut found = 0;
+
+    // ---- phase 1: requests that arrive while the server is still initializing (workspace load), one of them cancelled meanwhile
+    s.send(req(1, "initialize", Some(json!({"processId": null, "rootUri": root, "workspaceFolders": [{"uri": root, "name": "ws"}],
+        "capabilities": {"workspace": {"configuration": false}}}))));
+    s.wait_for(&[1], Duration::from_secs(20), Duration::from_millis(0));
+    sent.push((1, "initialize".to_string()));
+    let t0 = Instant::now();
+    s.send_all(&[
+        notif("initialized", Some(json!({}))),
+        req(21, "textDocument/hover", Some(hover("a.lua"))),
+        req(22, "textDocument/documentSymbol", Some(json!({"textDocument": {"uri": uri("a.lua")}}))),
+        req(23, "bogus/unknownMethod", Some(json!({}))),
+        notif("$/cancelRequest", Some(json!({"id": 21}))),
+        notif("textDocument/didChange", Some(json!({"textDocument": {"uri": uri("a.lua"), "version": 2}, "contentChanges": [{"text": "local M = {}\nfunction M.foo(x) return x end\nreturn M\n"}]}))),
+        req(24, "textDocument/hover", Some(hover("a.lua"))),
+    ]);
+    s.wait_for(&[21, 22, 23, 24], Duration::from_secs(40), Duration::from_millis(500));
+    println!("  (the four requests were sent in one write right after `initialized`; the last answer came {} ms later: they were queued while the workspace loaded)", t0.elapsed().as_millis());
+    for (id, what) in [(21, "hover sent during initialization, `$/cancelRequest` id=21 sent during initialization too"), (22, "documentSymbol sent during initialization"),
+                       (23, "unknown method sent during initialization"), (24, "hover sent during initialization, after the cancel")] { sent.push((id, what.to_string())); }
+    found += verdict(&mut s, &sent[1..]);
+    let mut checked = sent.len();
+
+    // ---- phase 2: `$/cancelRequest` for a request that is in flight: a big didOpen holds the analysis write lock, the hover waits for it
+    if s.exited().is_none() {
+        let mut funcs = std::env::var("VR_C24_BIG").ok().and_then(|v| v.parse().ok()).unwrap_or(3000usize);
+        for attempt in 0..3i64 {
+            let (h, h2) = (31 + 2 * attempt, 32 + 2 * attempt);
+            let name = format!("big{attempt}.lua");
+            s.verbose = false;
+            s.send(notif("textDocument/didOpen", Some(json!({"textDocument": {"uri": uri(&name), "languageId": "lua", "version": 1, "text": lua_module(9000 + attempt as usize, funcs)}}))));
+            s.verbose = true;
+            println!("  --> textDocument/didOpen {name} ({funcs} functions): its task holds the analysis write lock while it indexes");
+            std::thread::sleep(Duration::from_millis(150));
+            s.send_all(&[req(h, "textDocument/hover", Some(hover(&name))), notif("$/cancelRequest", Some(json!({"id": h}))), req(h2, "textDocument/hover", Some(hover("a.lua")))]);
+            s.wait_for(&[h, h2], Duration::from_secs(40), Duration::from_millis(500));
+            sent.push((h, format!("hover on {name} while the didOpen is being indexed, `$/cancelRequest` id={h} sent right behind it")));
+            sent.push((h2, "hover sent behind the cancel (not cancelled)".to_string()));
+            if s.error_code(h) == Some(-32800) || s.count(h) != 1 || s.exited().is_some() { break; }
+            println!("  (id={h} was answered before the cancel was seen: not in flight; retrying with a bigger document)");
+            funcs *= 3;
+        }
+        found += verdict(&mut s, &sent[checked..]);
+        let in_flight = sent[checked..].iter().any(|(id, _)| s.responses.get(&id.to_string()).map(|v| v.iter().any(|m| m["error"]["code"] == json!(-32800))).unwrap_or(false));
+        println!("  (in-flight cancellation observed: {})", if in_flight { "yes, RequestCanceled (-32800) came back" } else { "NO — the cancel never hit a running request in this run" });
+        checked = sent.len();
+    }
+
+    // ---- phase 3: malformed notifications of every registered method, each followed by a well-formed request
+    let bad: Vec<(&str, Option<Value>, &str)> = vec![
+        ("textDocument/didChange", Some(json!({"textDocument": {"uri": uri("a.lua"), "version": 3}, "contentChanges": "not an array"})), "contentChanges not an array"),
+        ("textDocument/didChange", Some(json!({"textDocument": {"uri": uri("a.lua")}, "contentChanges": []})), "version missing"),
+        ("textDocument/didChange", None, "params absent"),
+        ("textDocument/didOpen", Some(json!({"textDocument": {"uri": uri("a.lua"), "languageId": "lua", "version": 1}})), "text missing"),
+        ("textDocument/didSave", Some(json!(17)), "params a number"),
+        ("textDocument/didClose", Some(json!({})), "textDocument missing"),
+        ("workspace/didChangeWatchedFiles", Some(json!({"changes": 5})), "changes not an array"),
+        ("$/setTrace", Some(json!({"value": 7})), "value not a trace level"),
+        ("workspace/didChangeConfiguration", None, "params absent"),
+        ("workspace/didRenameFiles", Some(json!({"files": "x"})), "files not an array"),
+        ("$/cancelRequest", Some(json!({"id": {"no": "id"}})), "id an object"),
+        ("bogus/unknownNotification", Some(json!([])), "unknown notification"),
+    ];
+    let mut id = 100;
+    for (m, p, what) in &bad {
+        if s.exited().is_some() { break; }
+        id += 1;
+        s.send_all(&[notif(m, p.clone()), req(id, "textDocument/hover", Some(hover("a.lua")))]);
+        s.wait_for(&[id], Duration::from_secs(6), Duration::from_millis(100));
+        sent.push((id, format!("hover sent right after the malformed notification {m} ({what})")));
+        if s.count(id) != 1 { break; }
+    }
+    s.wait_for(&[], Duration::from_secs(0), Duration::from_millis(500));
+    found += verdict(&mut s, &sent[checked..]);
+
+    // ---- the whole session: no id answered that was never asked, none twice
+    let asked: Vec<String> = sent.iter().map(|(i, _)| i.to_string()).collect();
+    for (k, v) in &s.responses { if !asked.contains(k) && k != "9999" { println!("FOUND a response for id={k}, which was never requested ({} of them)", v.len()); found += 1; } }
+    println!("  session: {} request ids, {} responses in total", sent.len(), s.responses.values().map(|v| v.len()).sum::<usize>());
+    s.stop();
+    let _ = std::fs::remove_dir_all(&ws);
     found
 }
 
 fn main() {
     let mode = std::env::args().nth(1).unwrap_or("all".to_string());
     if mode == "--server" { return server_main(); }
+    let t0 = Instant::now();
     let mut found = 0;
     if mode == "dispatch" || mode == "all" { found += dispatch(); }
     if mode == "initialize" || mode == "all" { found += initialize(); }
+    if mode == "session" || mode == "all" { found += session(); }
+    println!("({} s)", t0.elapsed().as_secs());
     if found > 0 { std::process::exit(1); }
     println!("every request id was answered exactly once");
 }
